@@ -1,0 +1,56 @@
+//go:build verif
+
+package gobinlog
+
+// Contracts for the connection layer (slave_connection.go) and for Stream / Error (streamer.go):
+// properties C04 (write-back), C05 (sequential fragment), C06, C07, C08 (private copy of each packet).
+
+import (
+	"github.com/Breeze0806/gobinlog/internal/vspec"
+	"github.com/Breeze0806/gobinlog/replication"
+)
+
+// ---- assumed contracts of the dependency (github.com/Breeze0806/mysql DumpConn) ----
+
+// every ReadPacket call yields a new result (not a function of the connection's identity)
+func vc_iface_dumpConn_ReadPacket_fresh() {}
+
+// ReadPacket returns an error or a packet of at least one byte (the header byte)
+func vc_iface_dumpConn_ReadPacket_ensures(buf []byte, err error) bool {
+	return err != nil || len(buf) >= 1
+}
+
+// ---- (*Error).msgf: assumed, not verified (it formats with a non-literal format string): it returns its
+// receiver and changes nothing but the message ----
+
+func vc_Error_msgf_trusted() {}
+func vc_Error_msgf_ensures_same(e *Error, format string, args []interface{}, res *Error) bool {
+	return res == e
+}
+
+// ---- readBinlogEvent ----
+
+func vc_slaveConnection_readBinlogEvent_requires(s *slaveConnection) bool {
+	return s != nil && s.dc != nil
+}
+
+// C08: the event handed on is a private copy of the packet payload (the driver reuses its buffer)
+func vc_slaveConnection_readBinlogEvent_ensures_copy(s *slaveConnection, ev replication.BinlogEvent, rerr *Error, buf []byte, err error) bool {
+	if rerr != nil {
+		return ev == nil
+	}
+	return ev != nil && vspec.Fresh(ev.Bytes(), buf) && vspec.EqBytes(ev.Bytes(), buf[1:])
+}
+
+// C06: the reason is classified exactly: transport error, EOF packet (0xfe), ERR packet (0xff), else an event
+func vc_slaveConnection_readBinlogEvent_ensures_reason(s *slaveConnection, ev replication.BinlogEvent, rerr *Error, buf []byte, err error) bool {
+	switch {
+	case err != nil:
+		return rerr != nil && rerr.ori == err
+	case buf[0] == 0xfe:
+		return rerr != nil && rerr.ori == errStreamEOF
+	case buf[0] == 0xff:
+		return rerr != nil && rerr.ori == s.dc.HandleErrorPacket(buf)
+	}
+	return rerr == nil
+}
